@@ -217,7 +217,20 @@ def d_superlearner(chk, case, out, X, y, Xq):
         chk.d(got == list(range(n)), 'each row is held out (predicted out-of-fold) exactly once per candidate',
               dict(ctx, cand=c))
     fits = [e for e in ev if e['ev'] == 'fit']
-    sig = {'class': 'SuperLearner', 'case': 'all_coefficients_below_threshold'} if case.get('zero_y') else None
+    # the known unguarded case (finding C20-a) is recognised from the input side: a reference nnls on the observed
+    # out-of-fold predictions returns only entries below sqrt(eps) (forced by the all-zero-outcome stream, and
+    # reached naturally e.g. by leave-one-out folds on 10 binary rows)
+    sig = None
+    try:
+        from scipy.optimize import nnls
+        cvo = np.full((n, m), np.nan)
+        for e in preds:
+            cvo[e['ids'], e['cand']] = e['values']
+        if not np.isnan(cvo).any() and np.all(nnls(cvo, y)[0] < SQRT_EPS):
+            sig = {'class': 'SuperLearner', 'case': 'all_coefficients_below_threshold'}
+            chk.count('sl_all_coefficients_below_threshold')
+    except Exception:
+        pass
     co = np.array(out['coefs'])
     ok = bool(np.all(np.isfinite(co)) and np.all(co >= 0) and abs(co.sum() - 1) <= 1e-9)
     chk.d(ok, 'coefficients are non-negative and sum to one', dict(ctx, coefs=out['coefs']), signature=sig)
